@@ -101,17 +101,22 @@ pub fn run(seed: u64, out: &str, millis: u64) -> bool {
             let (cache, stop, clock, progress) = (cache.clone(), stop.clone(), clock.clone(), progress[t as usize].clone());
             let mut rng = Rng::new(seed * 31 + t + round as u64 * 7);
             threads.push(std::thread::spawn(move || {
+                // the acknowledgements most recently handed to this thread (in particular those around shutdown())
+                let mut recent: std::collections::VecDeque<Arc<tinylfu_cached::cache::command::acknowledgement::CommandAcknowledgement>> = std::collections::VecDeque::new();
+                let mut keep = |result: tinylfu_cached::cache::command::command_executor::CommandSendResult| {
+                    if let Ok(ack) = result { if recent.len() >= 256 { recent.pop_front(); } recent.push_back(ack); }
+                };
                 while !stop.load(Ordering::Relaxed) {
                     let key = rng.below(4);
                     let value = rng.next() % 1000;
                     match rng.below(12) {
-                        0 => { let _ = cache.put(key, value); }
-                        1 => { let _ = cache.put_with_weight(key, value, 1 + rng.below(12) as i64); }
-                        2 => { let _ = cache.put_with_ttl(key, value, Duration::from_millis(1 + rng.below(3000))); }
-                        3 => { let _ = cache.put_or_update(PutOrUpdateRequestBuilder::new(key).value(value).build()); }
-                        4 => { let _ = cache.put_or_update(PutOrUpdateRequestBuilder::new(key).value(value).time_to_live(Duration::from_millis(1 + rng.below(3000))).build()); }
-                        5 => { let _ = cache.put_or_update(PutOrUpdateRequestBuilder::new(key).value(value).weight(1 + rng.below(9) as i64).build()); }
-                        6 => { let _ = cache.delete(key); }
+                        0 => { keep(cache.put(key, value)); }
+                        1 => { keep(cache.put_with_weight(key, value, 1 + rng.below(12) as i64)); }
+                        2 => { keep(cache.put_with_ttl(key, value, Duration::from_millis(1 + rng.below(3000)))); }
+                        3 => { keep(cache.put_or_update(PutOrUpdateRequestBuilder::new(key).value(value).build())); }
+                        4 => { keep(cache.put_or_update(PutOrUpdateRequestBuilder::new(key).value(value).time_to_live(Duration::from_millis(1 + rng.below(3000))).build())); }
+                        5 => { keep(cache.put_or_update(PutOrUpdateRequestBuilder::new(key).value(value).weight(1 + rng.below(9) as i64).build())); }
+                        6 => { keep(cache.delete(key)); }
                         7 => { let _ = cache.get(&key); }
                         8 => { let _ = cache.get_ref(&key).map(|r| r.value().value()); }
                         9 => { let _ = cache.multi_get(vec![&0, &1, &2]); }
@@ -120,6 +125,8 @@ pub fn run(seed: u64, out: &str, millis: u64) -> bool {
                     }
                     progress.fetch_add(1, Ordering::Relaxed);
                 }
+                drop(keep);
+                recent
             }));
         }
         // watchdog: every client thread must keep completing calls
@@ -149,7 +156,20 @@ pub fn run(seed: u64, out: &str, millis: u64) -> bool {
         while !done.load(Ordering::SeqCst) && Instant::now() < deadline { std::thread::sleep(Duration::from_millis(5)); }
         if !done.load(Ordering::SeqCst) { sink.both("# hang shutdown()_did_not_return_under_load"); sink.flush(); std::process::exit(3); }
         stop.store(true, Ordering::SeqCst);
-        for thread in threads { let _ = thread.join(); }
+        let mut handed_out = Vec::new();
+        for thread in threads { if let Ok(recent) = thread.join() { handed_out.extend(recent); } }
+        // every acknowledgement handed out before or during shutdown() completes (real outcome or ShuttingDown)
+        let deadline = Instant::now() + Duration::from_secs(3);
+        lock_api::verif_log::probing(true);
+        let mut unresolved = handed_out.iter().filter(|ack| !ack.verif_peek().0).count();
+        while unresolved > 0 && Instant::now() < deadline {
+            std::thread::sleep(Duration::from_millis(5));
+            unresolved = handed_out.iter().filter(|ack| !ack.verif_peek().0).count();
+        }
+        lock_api::verif_log::probing(false);
+        writeln!(sink.input, "L acks-after-shutdown {}", if unresolved == 0 { "resolved".to_string() } else { format!("unresolved:{}-of-{}", unresolved, handed_out.len()) }).unwrap();
+        writeln!(sink.implementation, "R ok").unwrap();
+        drop(handed_out);
         // after shutdown() the worker answers whatever still arrives with ShuttingDown for as long as the cache (and with it
         // the sender) lives: it must still be there, blocked at its queue, not gone
         std::thread::sleep(Duration::from_millis(60));
